@@ -85,3 +85,11 @@ def structured(draw, max_perturb=3):
 
 def structured_text():
     return st.tuples(structured(), st.sampled_from([' ', ' ', '\n', '  '])).map(lambda t: t[1].join(t[0]))
+
+
+def comment_led(max_tokens=10):
+    """a statement that starts with a comment directly followed by arbitrary tokens (joiners such as AS, ::, :=, operators
+    first): shapes in which grouping makes the leading comment the first child of a nested group"""
+    cm = st.sampled_from(['/* c */', '/*c*/', '-- remark\n', '--x\n', '/* a */ /* b */', '/*+ hint */', '# c\n'])
+    first = st.sampled_from(['as', 'AS', '::', ':=', '.', '=', '+', ',', 'x', 'a.b', '(', 'and', 'over', 'in', 'like', 'desc', '[', 'case', 'end', "at time zone 'utc'"])
+    return st.tuples(st.sampled_from(['', '', 'select 1; ', ' ', '\n']), cm, st.sampled_from(['', ' ', '\n']), first, st.sampled_from(['', ' ']), soup(max_tokens)).map(''.join)
